@@ -75,6 +75,19 @@ CLAIMED.update({
         design='DESIGN.md section 4, C04'),
 })
 
+CLAIMED.update({
+    'C05': dict(
+        category='other',
+        technique='facet-dispatch exhaustiveness vs the XSD, ordering tables of bound comparisons (abstract evaluation), regex-dialect scan, gate-to-sink def-use identity',
+        text=("Decides: which value gate each of the 151 simple types inherits (base-class table vs restriction@base); every facet the schema uses is handled and the "
+              "schema has none of the shapes the gate does not model; patterns are applied with fullmatch and every XSD-only regex construct in use is rewritten, the "
+              "translated patterns compile, the replacement classes equal the XML 1.0 name productions; the rejecting comparison of every bound facet and primitive gate "
+              "has the facet's three-cell table; the enumeration list is the type's own and per instance; the value validated is the value stored and rendered along the "
+              "whole setter chain; bool/non-finite floats and text on no-content types are reported (known findings KF-12/13/14)."),
+        note="Does not decide two-sided exactness for arbitrary values (token whitespace collapsing, xs:date arithmetic, unions over arbitrary values).",
+        design='DESIGN.md section 4, C05'),
+})
+
 NOT_APPLICABLE = {
     'C02': "Acceptance and order preservation for every word of 94 regular languages is the run-time behaviour of a heuristic matcher (first-fit leaf choice, choice commitment, duplication) on a mutable tree; no structural rule bounds the reachable tree states, and running the matcher (concretely or symbolically) is a different technique family. The one structural by-product (an unimplemented branch reachable from a valid word) is reported under C19.",
     'C07': "'Every accepted state has a completion' is an existential claim per reachable matcher state; the reachable states are defined by execution histories, not by the shape of the code. The rejection points that exist are covered as ordering/atomicity obligations of C01/C10, which is not a verdict on C07.",
